@@ -16,7 +16,7 @@ def idx (l : List Step) (x : Step) : Nat := l.findIdx (· == x)
 
 /-- **seccomp iff given**: a filter is loaded iff one was given. -/
 theorem C04_seccomp_iff (o : Opts) : Step.seccomp ∈ skeleton o ↔ o.seccomp = true := by
-  unfold skeleton syncBlock mountSteps
+  unfold skeleton syncBlock mountSteps tracemeSteps
   simp only [List.mem_append, mem_opt, List.mem_cons, List.mem_flatMap,
     List.mem_replicate, List.mem_singleton, List.not_mem_nil]
   cases o.seccomp <;> cases o.ptrace <;> cases o.ucas <;> simp
@@ -26,7 +26,7 @@ theorem C04_seccomp_iff (o : Opts) : Step.seccomp ∈ skeleton o ↔ o.seccomp =
 
 /-- the filter is loaded **at most once**. -/
 theorem C04_seccomp_once (o : Opts) : (skeleton o).count Step.seccomp ≤ 1 := by
-  unfold skeleton syncBlock mountSteps
+  unfold skeleton syncBlock mountSteps tracemeSteps
   have hm : ∀ n, List.count Step.seccomp ((List.range n).flatMap fun _ => [Step.mkdirat, Step.mount] ++ opt o.roBindMount [Step.statfs, Step.mount_remount]) = 0 := by
     intro n; apply List.count_eq_zero.mpr; simp
   have hr : List.count Step.seccomp (List.replicate o.nRlimits Step.prlimit64) = 0 := by
@@ -45,14 +45,14 @@ theorem C04_nnp (o : Opts) (h : o.nnp = true ∨ o.seccomp = true) : Step.prctl_
 credentials or capability dropping were requested — for every combination of the other options. -/
 theorem C04_caps_dropped (o : Opts) (h : o.cred = true ∨ o.dropCaps = true) :
     Step.capset ∈ skeleton o ∧ Step.prctl_securebits_noroot ∈ skeleton o := by
-  unfold skeleton syncBlock mountSteps
+  unfold skeleton syncBlock mountSteps tracemeSteps
   simp only [List.mem_append, mem_opt, List.mem_cons, List.mem_flatMap,
     List.mem_replicate, List.mem_singleton, List.not_mem_nil]
   rcases h with h | h <;> simp [h] <;> cases o.ucas <;> cases o.ptrace <;> cases o.seccomp <;> simp
 
 /-- and they are not dropped when nothing asked for it (exactness). -/
 theorem C04_caps_kept_otherwise (o : Opts) (h1 : o.cred = false) (h2 : o.dropCaps = false) : Step.capset ∉ skeleton o := by
-  unfold skeleton syncBlock mountSteps
+  unfold skeleton syncBlock mountSteps tracemeSteps
   simp only [List.mem_append, mem_opt, List.mem_cons, List.mem_flatMap,
     List.mem_replicate, List.mem_singleton, List.not_mem_nil]
   simp [h1, h2]
@@ -61,7 +61,7 @@ theorem C04_caps_kept_otherwise (o : Opts) (h1 : o.cred = false) (h2 : o.dropCap
 theorem C04_ids (o : Opts) :
     (Step.setuid ∈ skeleton o ↔ o.cred = true) ∧ (Step.setgid ∈ skeleton o ↔ o.cred = true) ∧
     (Step.setgroups ∈ skeleton o ↔ (o.cred = true ∧ o.noSetGroups = false ∧ ¬ (o.gidMappings = true ∧ o.enableSetgroups = false ∧ o.groups = 0))) := by
-  unfold skeleton syncBlock mountSteps
+  unfold skeleton syncBlock mountSteps tracemeSteps
   simp only [List.mem_append, mem_opt, List.mem_cons, List.mem_flatMap,
     List.mem_replicate, List.mem_singleton, List.not_mem_nil]
   refine ⟨?_, ?_, ?_⟩ <;> cases o.cred <;> simp <;>
@@ -77,7 +77,7 @@ theorem C04_setsid (o : Opts) : Step.setsid ∈ skeleton o := by
 theorem C04_cwd_host_domain (o : Opts) :
     (Step.chdir_workdir ∈ skeleton o ↔ o.workdir = true) ∧ (Step.sethostname ∈ skeleton o ↔ o.hostname = true) ∧
     (Step.setdomainname ∈ skeleton o ↔ o.domainname = true) := by
-  unfold skeleton syncBlock mountSteps
+  unfold skeleton syncBlock mountSteps tracemeSteps
   simp only [List.mem_append, mem_opt, List.mem_cons, List.mem_flatMap,
     List.mem_replicate, List.mem_singleton, List.not_mem_nil]
   refine ⟨?_, ?_, ?_⟩ <;> simp
@@ -86,7 +86,7 @@ theorem C04_cwd_host_domain (o : Opts) :
 theorem C04_pivot (o : Opts) :
     (Step.pivot_root ∈ skeleton o ↔ o.pivot = true) ∧ (Step.mount_ro_root ∈ skeleton o ↔ o.pivot = true) ∧
     (Step.umount2 ∈ skeleton o ↔ o.pivot = true) := by
-  unfold skeleton syncBlock mountSteps
+  unfold skeleton syncBlock mountSteps tracemeSteps
   simp only [List.mem_append, mem_opt, List.mem_cons, List.mem_flatMap,
     List.mem_replicate, List.mem_singleton, List.not_mem_nil]
   refine ⟨?_, ?_, ?_⟩ <;> simp
@@ -103,7 +103,7 @@ theorem C04_vfork_safe (o : Opts) (h : usesVfork o = true) :
     Step.write_sync ∉ skeleton o ∧ Step.read_idmap ∉ skeleton o ∧ Step.kill_stop ∉ skeleton o := by
   simp only [usesVfork, Bool.and_eq_true, Bool.not_eq_true', Bool.or_eq_false_iff, Bool.and_eq_false_iff] at h
   obtain ⟨⟨h1, h2, h3⟩, h4⟩ := h
-  unfold skeleton syncBlock mountSteps
+  unfold skeleton syncBlock mountSteps tracemeSteps
   simp only [List.mem_append, mem_opt, List.mem_cons, List.mem_flatMap,
     List.mem_replicate, List.mem_singleton, List.not_mem_nil]
   refine ⟨?_, ?_, ?_⟩ <;> simp [h1, h2, h4] <;> (rcases h3 with h3 | h3 <;> simp [h3])
